@@ -85,6 +85,42 @@ Theorem pfaf_closure : forall ds pits sq uparea mask depth,
 Proof. exact PfafClosure.pfaf_closure. Qed.
 Print Assumptions pfaf_closure.
 
+(* ODD DIGITS INCREASE UPSTREAM ALONG THE MAIN STEM: between a labelled cell c and its main upstream cell c' the code either
+   stays the same or changes at one level q: all digits above q agree, both digits at q are odd (interbasins) and the
+   upstream one is strictly larger.  A returned outlet that is NOT the main upstream cell of its downstream cell (a
+   tributary sub-basin) carries an EVEN digit at the level where it leaves the (odd) code of its downstream cell. *)
+From PF Require Import PfafStem.
+Theorem pfaf_main_stem_odd : forall ds pits sq uparea mask depth,
+  topo ds sq -> (forall c, valid ds c -> In c sq) -> 1 <= depth -> NoDup pits ->
+  (forall p, In p pits -> In p sq /\ dsf ds p = p) ->
+  (forall c, In c sq -> 0 < nth c uparea 0) ->
+  (forall c, In c sq -> dsf ds c <> c -> nth c uparea 0 < nth (dsf ds c) uparea 0) ->
+  let main := main_upstream ds uparea 0 in
+  let L := fst (subbasins_pfafstetter ds pits sq main uparea mask depth) in
+  forall c, In c sq -> let c' := nth c main (length ds) in (c' < length ds)%nat ->
+    nth c L 0 <> 0 ->
+    nth c' L 0 = nth c L 0 \/
+    exists q, 0 <= q < depth /\
+      (forall p, q < p < depth -> digit p (nth c' L 0) = digit p (nth c L 0)) /\
+      Z.odd (digit q (nth c L 0)) = true /\ Z.odd (digit q (nth c' L 0)) = true /\
+      digit q (nth c L 0) < digit q (nth c' L 0).
+Proof. exact PfafStem.pfaf_main_stem_odd. Qed.
+Print Assumptions pfaf_main_stem_odd.
+Theorem pfaf_tributary_even : forall ds pits sq uparea mask depth,
+  topo ds sq -> (forall c, valid ds c -> In c sq) -> 1 <= depth -> NoDup pits ->
+  (forall p, In p pits -> In p sq /\ dsf ds p = p) ->
+  (forall c, In c sq -> 0 < nth c uparea 0) ->
+  (forall c, In c sq -> dsf ds c <> c -> nth c uparea 0 < nth (dsf ds c) uparea 0) ->
+  let main := main_upstream ds uparea 0 in
+  let r := subbasins_pfafstetter ds pits sq main uparea mask depth in
+  let L := fst r in let idxs := snd r in
+  forall o, In o idxs -> dsf ds o <> o -> nth (dsf ds o) main (length ds) <> o ->
+    exists q, 0 <= q < depth /\
+      (forall p, q < p < depth -> digit p (nth o L 0) = digit p (nth (dsf ds o) L 0)) /\
+      Z.odd (digit q (nth (dsf ds o) L 0)) = true /\ Z.even (digit q (nth o L 0)) = true.
+Proof. exact PfafStem.pfaf_tributary_even. Qed.
+Print Assumptions pfaf_tributary_even.
+
 (* non-vacuity *)
 Example sto_example : topo [0;0;1;1]%nat [0;1;2;3]%nat /\
   subbasins_streamorder [0;0;1;1]%nat [0;1;2;3]%nat [2;2;1;1] 1 = ([3;3;2;1], [3;2;0]%nat).
